@@ -291,6 +291,16 @@ def rule_jobs(ctx):
                     i_submit = i
                     b.update(r1[0][1])
                     b.update(find_all(st, f"_jobs.append({r1[0][1]['_job']})")[0][1])
+            # the same submission written (or normalised, sa/normalise.py) as a comprehension
+            if i_submit is None and isinstance(st, ast.Assign) and isinstance(st.value, ast.ListComp) and len(st.value.generators) == 1 \
+                    and ast.unparse(st.value.generators[0].iter) == b['_blocks'] and isinstance(st.value.generators[0].target, ast.Name) \
+                    and not st.value.generators[0].ifs and len(st.targets) == 1 and isinstance(st.targets[0], ast.Name):
+                blk = st.value.generators[0].target.id
+                r1 = find_all(st.value.elt, f"_pool.apply_async(self._worker, ({blk}, _queue))")
+                if r1 and r1[0][0] is st.value.elt:
+                    i_submit = i
+                    b.update(r1[0][1])
+                    b['_jobs'] = st.targets[0].id
         if i_submit is not None:
             for i, st in enumerate(body):
                 if isinstance(st, ast.For) and ast.unparse(st.iter) == b['_jobs'] and isinstance(st.target, ast.Name) and has(st, f"{st.target.id}.get()"):
